@@ -59,7 +59,8 @@ def run(ctx, mod, a):
         with core.LeanLock():
             gen = core.regenerate()
             gen_info = {k: bool(v[0]) for k, v in gen.items()}
-            ok, log = core.lake_build(["D3.Audit." + prop, "D3.Driver.All"])
+            targets = ["D3.Audit." + prop, "D3.Driver." + prop] + list(getattr(mod, "LEAN_TARGETS", []))
+            ok, log = core.lake_build(targets)
             if not ok:
                 errs = core.build_errors(log)
                 name = errs[0]["file"] if errs else "lake build"
